@@ -156,6 +156,22 @@ def shortcut_rule(chk, prog, f, q1, q2):
         chk.error("SHORTCUT: allclose present in %s but not reached by the analysis" % f.qname)
 
 
+def chordal_twin(chk, prog, A=None, B=None, rule="TWIN"):
+    """the N-by-3-by-3 arm of chordal equals the 3-by-3 arm row by row for *generic* matrices (an identity that only holds on SO(3) is not one:
+    it cancels catastrophically for nearby rotations and differs for inputs that are not exactly orthonormal)"""
+    f = prog.func(MET + "::chordal")
+    chk.touch(f)
+    A = sym_mat("A", 3, 3) if A is None else A
+    B = sym_mat("B", 3, 3) if B is None else B
+
+    def twin():
+        C, D_ = sym_mat("C", 3, 3), sym_mat("D", 3, 3)
+        got = to_obj(Interp(prog, oracle=no_shortcut).run(f, [np.stack([A, C]), np.stack([B, D_])]))
+        one = Interp(prog, oracle=no_shortcut).run(f, [A.copy(), B.copy()])
+        return all_of(eq(got[0] * got[0], one * one, "batch row 0 (squared)"))
+    chk.ob(rule, f.ref, "batch arm row == single arm (generic 3x3 matrices)", twin, module=MET, function="chordal", construct="single vs batch", line=f.node.lineno)
+
+
 def matrix_metrics(chk, prog):
     r = unit_syms("mr")
     M = E_ref(r)
@@ -178,14 +194,7 @@ def matrix_metrics(chk, prog):
                    lambda run2=run2: all_of(eq(run2(A, B), fro2(I(3) - A @ B.T), "depends on A B^T only"), eq(fro2(I(3) - M @ X @ M.T), fro2(I(3) - X), "conjugation"),
                                             eq(M @ M.T, I(3), "M M^T")), construct="bi-invariance", **kw)
         chk.ob("CLOSED", f.ref, "%s(E(q1),E(q2))^2 == 8(1 - (q1.q2)^2)" % name, lambda run2=run2: eq(run2(R1, R2), 8 * (1 - d * d), name + "^2"), construct="closed form", **kw)
-    f = prog.func(MET + "::chordal")
-
-    def twin():
-        C, D_ = sym_mat("C", 3, 3), sym_mat("D", 3, 3)
-        got = to_obj(Interp(prog, oracle=no_shortcut).run(f, [np.stack([A, C]), np.stack([B, D_])]))
-        one = Interp(prog, oracle=no_shortcut).run(f, [A.copy(), B.copy()])
-        return eq(got[0], one, "batch row 0")
-    chk.ob("TWIN", f.ref, "batch arm row == single arm", twin, module=MET, function="chordal", construct="single vs batch", line=f.node.lineno)
+    chordal_twin(chk, prog, A, B)
     # angular distance
     f = prog.func(MET + "::angular_distance")
     chk.touch(f)
